@@ -1,5 +1,4 @@
-//! C04 counterexample search (run only after a Verus unit of C04 reported a failed obligation, to find a concrete
-//! failing pair for the replay file): small sets of names and of record data values with hand-written comparison
+//! C04 native search (a bounded exploration of the real crate, run on every check; it also supplies the concrete input when a Verus obligation of the property fails): small sets of names and of record data values with hand-written comparison
 //! impls, all pairs (and triples of names) checked on the real crate for the laws of the property: == symmetric and
 //! (cmp == Equal) <=> ==; partial_cmp == Some(cmp); antisymmetry, transitivity; equal values hash equal; name_cmp
 //! is the RFC 4034 6.1 order; composed_cmp / canonical_cmp are the octet order of the (canonical) wire form.
